@@ -15,8 +15,17 @@
 (*      pre, post : [conf, final, time, x],                                *)
 (*      some, rtime, steps,         -- returned MacroStep (some = not None)*)
 (*      exc, eobj, eidx,            -- raised exception class ("" = none)  *)
-(*      log]                        -- chronological effect log (LogE)     *)
-(* steps[k] = [ev, par, tr, entered, exited, sent : Seq([k, ev, dl, par])] *)
+(*      log,                        -- chronological effect log (LogE)     *)
+(*      ign,                        -- run with ignore_contract=True       *)
+(*      hasl2, l2,                  -- a second listener attached after    *)
+(*                                     the monitor, and what it received   *)
+(*      mt,                         -- clock values the monitor saw        *)
+(*      ref : [rel, exc, some, steps, log, conf, final, x]]                *)
+(*                                  -- the same call in a TWIN run, for    *)
+(*                                     the relational properties (rel=""   *)
+(*                                     when there is none)                 *)
+(* steps[k] = [ev, par, cls, tr, entered, exited,                          *)
+(*             sent : Seq([k, ev, dl, par])]                               *)
 (***************************************************************************)
 EXTENDS Chart, TLC
 
@@ -377,6 +386,171 @@ C13_guards(c, G, o) ==
          o.log[j].v = (IF GuardVal(c, G, o, o.log[j].a) THEN 1 ELSE 0)
 
 -----------------------------------------------------------------------------
+(* Relational clauses: the same call observed in a twin run (o.ref)        *)
+NoRef == [rel |-> "", exc |-> "", some |-> FALSE, steps |-> <<>>, log |-> <<>>, conf |-> {},
+          final |-> FALSE, x |-> 0]
+
+NoGuardsL(lg) == SelectSeq(lg, LAMBDA e : e.k # "guard")
+GuardsL(lg) == Range(SelectSeq(lg, LAMBDA e : e.k = "guard"))
+NoCondL(lg) == SelectSeq(lg, LAMBDA e : e.k # "cond")
+IsMeta(e) == e.k \in {"start", "consumed", "xmeta", "tmeta", "emeta", "sent", "user", "end"}
+MetasL(lg) == SelectSeq(lg, IsMeta)
+
+(* the twin observed exactly the same call: same macro step, same code and *)
+(* meta-events in the same order, same configuration and context, same     *)
+(* error class (guard evaluation order inside a priority class is free)    *)
+RefEq(o) ==
+  /\ o.exc = o.ref.exc
+  /\ o.some = o.ref.some
+  /\ o.steps = o.ref.steps
+  /\ NoGuardsL(o.log) = NoGuardsL(o.ref.log)
+  /\ GuardsL(o.log) = GuardsL(o.ref.log)
+  /\ o.post.conf = o.ref.conf /\ o.post.final = o.ref.final /\ o.post.x = o.ref.x
+
+Rel(name, o) == o.ref.rel = name => RefEq(o)
+
+-----------------------------------------------------------------------------
+(* C08 *)
+IsCode(e) == e.k \in {"xcode", "acode", "ecode"}
+
+(* code fragments and contract conditions of kind ck, in the documented order, *)
+(* for the macro step the call returned                                        *)
+CondsOf(ck, owner, n) == [j \in 1..n |-> <<"cond", ck, owner, j>>]
+
+ExpectedCK(c, o, ck) ==
+  FlattenSeq([k \in DOMAIN o.steps |->
+    LET m == o.steps[k] IN
+    FlattenSeq([j \in DOMAIN m.exited |->
+        << <<"xcode", m.exited[j], 0, 0>> >>
+        \o (IF ck = 2 THEN CondsOf(2, m.exited[j], c.spost[m.exited[j]]) ELSE <<>>)])
+    \o (IF m.tr # 0
+          THEN (IF ck = 1 THEN CondsOf(1, -m.tr, c.trans[m.tr].pre) ELSE <<>>)
+               \o (IF ck = 3 THEN CondsOf(3, -m.tr, c.trans[m.tr].inv) ELSE <<>>)
+               \o << <<"acode", m.tr, 0, 0>> >>
+               \o (IF ck = 2 THEN CondsOf(2, -m.tr, c.trans[m.tr].post) ELSE <<>>)
+               \o (IF ck = 3 THEN CondsOf(3, -m.tr, c.trans[m.tr].inv) ELSE <<>>)
+          ELSE <<>>)
+    \o FlattenSeq([j \in DOMAIN m.entered |->
+        (IF ck = 1 THEN CondsOf(1, m.entered[j], c.spre[m.entered[j]]) ELSE <<>>)
+        \o << <<"ecode", m.entered[j], 0, 0>> >>])])
+  \o (IF ck = 3
+        THEN LET act == SortDN(c, o.post.conf)
+             IN FlattenSeq([j \in DOMAIN act |-> CondsOf(3, act[j], c.sinv[act[j]])])
+        ELSE <<>>)
+
+ObservedCK(o, ck) ==
+  LET sel == SelectSeq(o.log, LAMBDA e : IsCode(e) \/ (e.k = "cond" /\ e.a = ck))
+  IN [j \in DOMAIN sel |->
+        IF sel[j].k = "cond" THEN <<"cond", sel[j].a, sel[j].b, sel[j].c>>
+                             ELSE <<sel[j].k, sel[j].a, 0, 0>>]
+
+C08_points(c, G, o) ==
+  (IsExec(o) /\ Returned(o) /\ ~o.ign) =>
+    \A ck \in 1..3 : ObservedCK(o, ck) = ExpectedCK(c, o, ck)
+
+CondErrOf(ck) == CASE ck = 1 -> "PreconditionError" [] ck = 2 -> "PostconditionError"
+                   [] ck = 3 -> "InvariantError" [] OTHER -> "?"
+
+(* the first false condition raises at once, with the right class, owner and condition *)
+C08_firstfalse(c, G, o) ==
+  IsExec(o) =>
+    /\ \A j \in DOMAIN o.log :
+         (o.log[j].k = "cond" /\ o.log[j].v = 0) =>
+            /\ j = Len(o.log)
+            /\ o.exc = CondErrOf(o.log[j].a) /\ o.eobj = o.log[j].b /\ o.eidx = o.log[j].c
+    /\ o.exc \in ContractErrors =>
+         (Len(o.log) > 0 /\ o.log[Len(o.log)].k = "cond" /\ o.log[Len(o.log)].v = 0)
+
+(* what ran before the failure is what runs without it, and nothing runs after *)
+C08_prefix(c, G, o) ==
+  (IsExec(o) /\ o.ref.rel = "nofail" /\ o.cfail # 0) =>
+    LET nc == Len(SelectSeq(o.ref.log, LAMBDA e : e.k = "cond")) IN
+    IF o.cfail > nc THEN o.exc = o.ref.exc /\ o.log = o.ref.log
+    ELSE /\ o.exc \in ContractErrors
+         /\ Len(o.log) <= Len(o.ref.log)
+         /\ \A j \in 1..(Len(o.log) - 1) : o.log[j] = o.ref.log[j]
+         /\ Len(o.log) > 0 /\ o.log[Len(o.log)] = [o.ref.log[Len(o.log)] EXCEPT !.v = 0]
+
+(* __old__ : the context when the state was entered / the transition started *)
+C08_old(c, G, o) ==
+  IsExec(o) =>
+    \A j \in DOMAIN o.log :
+      LET e == o.log[j] IN
+      (e.k = "cond") =>
+        IF e.a = 1 THEN e.d = -1
+        ELSE IF e.b > 0 THEN
+          LET ent == {i \in 1..(j - 1) : o.log[i].k = "ecode" /\ o.log[i].a = e.b}
+          IN e.d = (IF ent = {} THEN G.oldx[e.b] ELSE o.log[Max(ent)].v)
+        ELSE
+          LET nxt == {i \in (j + 1)..Len(o.log) : IsCode(o.log[i])}
+              prv == {i \in 1..(j - 1) : IsCode(o.log[i])}
+              isact(i) == o.log[i].k = "acode" /\ o.log[i].a = -e.b
+          IN IF prv # {} /\ isact(Max(prv)) THEN e.d = o.log[Max(prv)].v      \* after the action
+             ELSE IF nxt # {} /\ isact(Min(nxt)) THEN e.d = o.log[Min(nxt)].v  \* before it
+             ELSE TRUE
+
+-----------------------------------------------------------------------------
+(* C09 *)
+C09_ignored(c, G, o) ==
+  o.ign => (LogK(o, {"cond"}) = <<>> /\ o.exc \notin ContractErrors)
+
+(* contracts on, nothing fails  ==  ignore_contract=True, except for the conditions themselves *)
+C09_transparent(c, G, o) ==
+  (o.ref.rel = "ignore" /\ o.exc \notin ContractErrors) =>
+    /\ o.exc = o.ref.exc /\ o.some = o.ref.some /\ o.steps = o.ref.steps
+    /\ NoGuardsL(NoCondL(o.log)) = NoGuardsL(o.ref.log)
+    /\ GuardsL(o.log) = GuardsL(o.ref.log)
+    /\ o.post.conf = o.ref.conf /\ o.post.final = o.ref.final /\ o.post.x = o.ref.x
+
+-----------------------------------------------------------------------------
+(* C10 *)
+CM(e) == <<e.k, e.a, e.b, e.c>>
+
+ExpectedCM(c, o) ==
+  << <<"start", o.clk, 0, 0>> >>
+  \o (IF Consumed(o) THEN << <<"consumed", o.steps[1].ev, o.steps[1].par, 0>> >> ELSE <<>>)
+  \o FlattenSeq([k \in DOMAIN o.steps |->
+       LET m == o.steps[k] IN
+       FlattenSeq([j \in DOMAIN m.exited |->
+           << <<"xcode", m.exited[j], 0, 0>>, <<"xmeta", m.exited[j], 0, 0>> >>])
+       \o (IF m.tr # 0
+             THEN << <<"acode", m.tr, m.ev, m.par>>,
+                     <<"tmeta", c.trans[m.tr].src, c.trans[m.tr].tgt, m.ev>> >>
+             ELSE <<>>)
+       \o FlattenSeq([j \in DOMAIN m.entered |->
+           << <<"ecode", m.entered[j], 0, 0>>, <<"emeta", m.entered[j], 0, 0>> >>])
+       \o [j \in DOMAIN m.sent |->
+             IF m.sent[j].k = "i" THEN <<"sent", m.sent[j].ev, m.sent[j].dl, m.sent[j].par>>
+                                  ELSE <<"user", m.sent[j].ev, 0, 0>>]])
+  \o << <<"end", 0, 0, 0>> >>
+
+C10_metas(c, G, o) ==
+  (IsExec(o) /\ Returned(o) /\ o.hasl2) =>
+    LET sel == SelectSeq(o.log, LAMBDA e : IsCode(e) \/ IsMeta(e))
+    IN [j \in DOMAIN sel |-> CM(sel[j])] = ExpectedCM(c, o)
+
+(* every listener receives every meta-event once, in order; nothing after a monitor failed *)
+C10_listeners(c, G, o) ==
+  (IsExec(o) /\ o.hasl2) =>
+    IF o.exc = "PropertyStatechartError" THEN o.l2 = Front(MetasL(o.log))
+    ELSE o.l2 = MetasL(o.log)
+
+C10_failfast(c, G, o) ==
+  (IsExec(o) /\ o.ref.rel = "nofail" /\ o.mfail # 0) =>
+    LET nm == Len(MetasL(o.ref.log)) IN
+    IF o.mfail > nm THEN o.exc = o.ref.exc /\ o.log = o.ref.log
+    ELSE /\ o.exc = "PropertyStatechartError"
+         /\ Len(MetasL(o.log)) = o.mfail
+         /\ Len(o.log) > 0 /\ IsMeta(o.log[Len(o.log)])
+         /\ Len(o.log) <= Len(o.ref.log)
+         /\ \A j \in 1..Len(o.log) : o.log[j] = o.ref.log[j]
+
+C10_noerror(c, G, o) ==
+  (IsExec(o) /\ o.mfail = 0) => o.exc # "PropertyStatechartError"
+
+C10_clock(c, G, o) == IsExec(o) => \A j \in DOMAIN o.mt : o.mt[j] = o.clk
+
+-----------------------------------------------------------------------------
 (* The set of failing clauses, as <<property, clause>> pairs                *)
 Check(name, ok) == IF ok THEN {} ELSE {name}
 
@@ -407,6 +581,23 @@ Bad(c, G, o) ==
     Check(<<"C05", "class">>, C05_class(c, G, o)),
     Check(<<"C06", "restore">>, C06_restore(c, G, o)),
     Check(<<"C06", "deepconf">>, C06_deep_conf(c, G, o)),
+    Check(<<"C07", "variant">>, Rel("variant", o)),
+    Check(<<"C08", "points">>, C08_points(c, G, o)),
+    Check(<<"C08", "firstfalse">>, C08_firstfalse(c, G, o)),
+    Check(<<"C08", "prefix">>, C08_prefix(c, G, o)),
+    Check(<<"C08", "old">>, C08_old(c, G, o)),
+    Check(<<"C09", "ignored">>, C09_ignored(c, G, o)),
+    Check(<<"C09", "transparent">>, C09_transparent(c, G, o)),
+    Check(<<"C10", "metas">>, C10_metas(c, G, o)),
+    Check(<<"C10", "listeners">>, C10_listeners(c, G, o)),
+    Check(<<"C10", "failfast">>, C10_failfast(c, G, o)),
+    Check(<<"C10", "noerror">>, C10_noerror(c, G, o)),
+    Check(<<"C10", "clock">>, C10_clock(c, G, o)),
+    Check(<<"C10", "nomon">>, Rel("nomon", o)),
+    Check(<<"C11", "reimport">>, Rel("reimport", o)),
+    Check(<<"C17", "rename">>, Rel("rename", o)),
+    Check(<<"C18", "fork">>, Rel("fork", o)),
+    Check(<<"C18", "undisturbed">>, Rel("undisturbed", o)),
     Check(<<"C13", "frozen">>, C13_frozen(c, G, o)),
     Check(<<"C13", "onlyexec">>, C13_only_exec(c, G, o)),
     Check(<<"C13", "guards">>, C13_guards(c, G, o))
